@@ -148,8 +148,10 @@ class Exec(Verifier):
 
     def st_Assert(self, s):
         c = self.truth(self.ev(s.test))
-        self.oblige("assert %s" % ast.unparse(s.test), "ghost" if self.in_ghost else "assert", c,
-                    text=ast.unparse(s.test))
+        label = "assert %s" % ast.unparse(s.test)
+        if self.in_ghost and isinstance(s.msg, ast.Constant) and isinstance(s.msg.value, str):
+            label = "ghost assertion %s" % s.msg.value      # `assert cond, 'name'` in ghost code: a named obligation
+        self.oblige(label, "ghost" if self.in_ghost else "assert", c, text=ast.unparse(s.test))
 
     def st_Return(self, s):
         v = self.ev(s.value) if s.value is not None else NONE_V
